@@ -697,23 +697,93 @@ func TestCheck(t *testing.T) {
 		}
 		return rej[i].Trace < rej[j].Trace
 	})
+	// Every verdict must be reproducible: the candidates of each key (in rank order, at most 8 per key) are executed
+	// again in fresh processes; a key is reported only with a run whose repetition is rejected for the same reason.
+	// (The schedule is a function of scenario and seed; a rejection that does not come back - e.g. a quiescent point
+	// misjudged on an overloaded machine - is counted, not reported.)
+	type cand struct {
+		r   tv.Reject
+		key string
+		wh  string
+	}
 	seen := map[string]int{}
+	var order []string
+	cands := map[string][]cand{}
 	for _, r := range rej {
 		tr := idx[r.Trace]
-		if strings.HasPrefix(r.Why, "harness-") {
-			e.Inconclusive(fmt.Sprintf("harness protocol error %s in scenario %d (%s/%s)", r.Why, tr.sc.ID, tr.sc.Prim, tr.sc.Class))
-			continue
-		}
 		key, what := findingKey(tr.sc.Prim, r.Why)
-		seen[key]++
-		if seen[key] > 1 {
-			continue
+		if strings.HasPrefix(r.Why, "harness-") {
+			key = "harness:" + r.Why
 		}
-		e.Violation(key, what, tv.M{"scenario": tr.sc, "schedule": tr.schedule, "trace": b.TraceStrings(r.Trace), "at": r.At, "crash": tr.crash, "crash_log": tr.crashLog})
+		if seen[key] == 0 {
+			order = append(order, key)
+		}
+		seen[key]++
+		if len(cands[key]) < 8 {
+			cands[key] = append(cands[key], cand{r, key, what})
+		}
 	}
 	if len(seen) > 0 {
 		fmt.Printf("rejected runs per key: %v\n", seen)
 	}
+	var again []scenario
+	for _, k := range order {
+		for _, c := range cands[k] {
+			again = append(again, idx[c.r.Trace].sc)
+		}
+	}
+	rejAgain := map[int]string{} // scenario id -> key of the repeated run
+	if len(again) > 0 {
+		res2, err2 := runScenarios(again, ev.Pick(10, 12))
+		if err2 != nil {
+			e.Inconclusive("repetition of the rejected runs failed: " + err2.Error())
+			return
+		}
+		b2 := &tv.Batch{}
+		var idx2 []*trace
+		for _, s := range again {
+			if tr := res2[s.ID]; tr != nil && tr.done && tr.err == "" {
+				b2.AppendTrace(tr.lines)
+				idx2 = append(idx2, tr)
+			}
+		}
+		rej2, vres2 := tv.Validate(tlc.Opts{Dir: "Locks", Module: "TraceLocks", Config: "TraceLocks.cfg", Workers: 8, Timeout: 10 * time.Minute, HeapMB: 6000}, b2)
+		if !vres2.OK {
+			e.Inconclusive("validation of the repeated runs did not run: " + vres2.What + vres2.Tail(800))
+			return
+		}
+		for _, r := range rej2 {
+			tr := idx2[r.Trace]
+			k, _ := findingKey(tr.sc.Prim, r.Why)
+			if strings.HasPrefix(r.Why, "harness-") {
+				k = "harness:" + r.Why
+			}
+			rejAgain[tr.sc.ID] = k
+		}
+		fmt.Printf("repeated %d rejected runs in fresh processes: %d rejected again\n", len(again), len(rej2))
+	}
+	notReproduced := map[string]int{}
+	for _, k := range order {
+		var hit *cand
+		for i := range cands[k] {
+			if rejAgain[idx[cands[k][i].r.Trace].sc.ID] == k {
+				hit = &cands[k][i]
+				break
+			}
+		}
+		if hit == nil {
+			notReproduced[k] = seen[k]
+			fmt.Printf("NOTE: %d run(s) rejected as %s, none of the %d repeated runs was rejected again: not reported\n", seen[k], k, len(cands[k]))
+			continue
+		}
+		tr := idx[hit.r.Trace]
+		if strings.HasPrefix(k, "harness:") {
+			e.Inconclusive(fmt.Sprintf("harness protocol error %s in scenario %d (%s/%s), reproducible", k, tr.sc.ID, tr.sc.Prim, tr.sc.Class))
+			continue
+		}
+		e.Violation(k, hit.wh, tv.M{"scenario": tr.sc, "schedule": tr.schedule, "trace": b.TraceStrings(hit.r.Trace), "at": hit.r.At, "crash": tr.crash, "crash_log": tr.crashLog, "rejected_runs_with_this_key": seen[k]})
+	}
+	e.Set("rejections_not_reproduced", notReproduced)
 	selfTest(e)
 }
 
